@@ -10,6 +10,9 @@ Decided (AVN, exact over the reals, symbolic a, f, GM, w):
             stated parameter box (interval arithmetic on the literals: f <= 0.2, m >= 0, h <= 0.005 a);
  SHARED-STATE no class-level cache shared between ellipsoid instances.
 Not decided: closeness to rotating-sphere values for small f (a limit statement), positivity in general.
+Added after the seeding rounds (DESIGN.md 6.6-6.8):
+ CTOR-ACCEPT / PIZZETTI.arms / HEIGHT.special / LIMIT  no rejection decided by the sign of w; the theorem on every equality-guarded degenerate arm (f = 0, w = 0);
+            the height term at latitudes exactly 0 and +-90; the sphere arms are the f -> 0 limits of the general arms.
 """
 import ast
 import numpy as np
